@@ -32,7 +32,7 @@ RULE = ("cases: (target call with arguments and seed, perturbation program).  di
         ' Also: numpy-integer and positional seeds, one-variable models, dag_avg_deg up to k = p-1, calls on the *same object* with the same seed and targets but other parameter values before and between the judged calls, failing library calls as perturbations, comparison with a freshly built twin, 150-call histories.')
 ASSUMPTIONS = ["bit-identity is judged on SHA-256 of (dtype, shape, bytes) of every returned array / nested list"]
 EXHAUSTIVE = {"quick": False, "thorough": False}
-SOFT_LIMIT = {"quick": 240, "thorough": 1500}
+SOFT_LIMIT = {"quick": 1200, "thorough": 5400}      # generous wall-clock watchdogs (a loaded machine must not cut a workload short); normal run times are in the evidence
 TARGETS = ["lganm_ctor", "lganm_sample", "nd_sample", "anm_sample", "dag_avg_deg", "dag_full", "intervention_targets", "split_data",
            "add_edges", "remove_edges"]
 REQUIRED_FUNCS = ["sempler/lganm.py:LGANM.__init__", "sempler/lganm.py:LGANM.sample", "sempler/normal_distribution.py:NormalDistribution.sample",
